@@ -358,7 +358,7 @@ static Outcome run_unreg(const UnregCase& c) {
                " although every class used statically is registered");
         return o;
     }
-    bool late_position = false, vp_route = false;
+    bool late_position = false, vp_route = false, forked = false;
     int calls = 0;
     for (std::size_t m = 0; m < w.meths.size() && o.ok; ++m) {
         auto& mi = w.meths[m];
@@ -405,6 +405,45 @@ static Outcome run_unreg(const UnregCase& c) {
                 o.fail("unreg-deliveries: " + where + ": handler entered " +
                        std::to_string(g_error_deliveries - before) + " times");
                 break;
+            }
+            // a handler that returns does not make the call go through:
+            // the program aborts (forked child, one call in eight, at most
+            // once per case)
+            if (!forked && !cfg.throw_facet && (calls % 8) == 1) {
+                forked = true;
+                fflush(nullptr);
+                pid_t pid = fork();
+                if (pid == 0) {
+                    int devnull = open("/dev/null", O_WRONLY);
+                    if (devnull >= 0) {
+                        dup2(devnull, 2);
+                    }
+                    signal(SIGABRT, sigabrt_probe);
+                    cfg.set_handler_mode(1);
+                    g_log.clear();
+                    try {
+                        mi.desc->call(args.objs, args.ints, nullptr);
+                    } catch (...) {
+                        _exit(44);
+                    }
+                    _exit(g_log.empty() ? 45 : 46);
+                }
+                int status = 0;
+                waitpid(pid, &status, 0);
+                int code = WIFEXITED(status) ? WEXITSTATUS(status) : -1;
+                if (code != 42) {
+                    o.fail("unreg-no-abort: " + where + " passes an object "
+                           "of the unregistered class " + std::to_string(L) +
+                           "; the handler returned and instead of aborting " +
+                           (code == 46      ? "a definition body ran"
+                                : code == 45 ? "the call returned"
+                                : code == 44
+                                ? "an exception escaped"
+                                : "the child ended with status " +
+                                    std::to_string(status)));
+                    break;
+                }
+                o.classes.push_back("unregistered_call_returning_handler");
             }
             late_position |= first >= 1;
             // which route carried the unregistered object?
